@@ -211,8 +211,15 @@ def lean_trxcon(d):
 
 
 def generate(run):
-    fw = dump_fw(run)
-    tc = dump_trxcon(run)
-    vf.write_if_changed(os.path.join(vf.LEAN, "OsmoVerif/Gen/FwMframe.lean"), lean_fw(fw))
-    vf.write_if_changed(os.path.join(vf.LEAN, "OsmoVerif/Gen/TrxconMframe.lean"), lean_trxcon(tc))
-    return {"fw": fw, "trxcon": tc}
+    """both translations; a failure of one side does not keep the other from being refreshed"""
+    res, errs = {}, []
+    for key, dump, lean, out in (("fw", dump_fw, lean_fw, "FwMframe"), ("trxcon", dump_trxcon, lean_trxcon, "TrxconMframe")):
+        try:
+            res[key] = dump(run)
+            vf.write_if_changed(os.path.join(vf.LEAN, "OsmoVerif/Gen/%s.lean" % out), lean(res[key]))
+        except Exception as e:
+            errs.append("%s: %s: %s" % (key, type(e).__name__, str(e)[-1200:]))
+    if errs:
+        run.mf_partial = res
+        raise vf.HarnessError("; ".join(errs))
+    return res
